@@ -923,41 +923,26 @@ func c08r4(c *Ctx) {
 			o.Fail("the deleted ObjectSet %s is not the current element of an ascending (oldest first) loop", rvShort(p, x))
 			continue
 		}
-		prm, isParam := stripConv(loop.Slice).(*ssa.Parameter)
+		// the loop runs over the previous-revisions parameter itself, or over a prefix previous[:k] of it
+		// (oldest first either way; element i of the prefix is element i of the list)
+		list := stripConv(loop.Slice)
+		var prefixLen ssa.Value
+		if sl, isSl := list.(*ssa.Slice); isSl && sl.High != nil && sl.Max == nil {
+			if lo, isC := constInt(sl.Low); sl.Low == nil || (isC && lo == 0) {
+				list, prefixLen = stripConv(sl.X), sl.High
+			}
+		}
+		prm, isParam := list.(*ssa.Parameter)
 		if !isParam {
-			o.Unknown("the pruned list %s is not a parameter", p.describe(loop.Slice))
+			o.Unknown("the pruned list %s is not a parameter (or a prefix of one)", p.describe(loop.Slice))
 			continue
 		}
 		var problems []string
-		// counter
-		var counter *ssa.Phi
-		for _, f := range p.FactsAt(site.Block()) {
-			rel, ok := rvRelOf(f)
-			if !ok {
-				continue
-			}
-			k, isC := constInt(rel.A)
-			ph, isPhi := rel.B.(*ssa.Phi)
-			if isC && isPhi && ph.Block() == loop.L.Head && ((k == 0 && rel.Strict) || (k == 1 && !rel.Strict)) {
-				counter = ph
-			}
-		}
-		if counter == nil {
-			o.Fail("the delete is not guarded by a loop-carried counter being > 0 (revisions within the history limit could be deleted)")
-			continue
-		}
-		for k, e := range counter.Edges {
-			pred := loop.L.Head.Preds[k]
-			if loop.L.Body[pred] {
-				if xx, cnt, ok := rvSubConst(e); !ok || xx != ssa.Value(counter) || cnt < 1 {
-					problems = append(problems, "the counter is not decremented on every completed iteration ("+rvShort(p, e)+"), so more than the excess could be deleted")
-				}
-				continue
-			}
+		// limitOK judges the excess expression len(previous) - limit
+		limitOK := func(e ssa.Value) bool {
 			sub, ok := e.(*ssa.BinOp)
-			if !ok || sub.Op != token.SUB || rvLenArg(sub.X) == nil || !p.sameValue(rvLenArg(sub.X), loop.Slice) {
-				problems = append(problems, "the counter does not start at len(previous) - limit: "+rvShort(p, e))
-				continue
+			if !ok || sub.Op != token.SUB || rvLenArg(sub.X) == nil || !(p.sameValue(rvLenArg(sub.X), loop.Slice) || p.sameValue(rvLenArg(sub.X), prm)) {
+				return false
 			}
 			lim := sub.Y
 			if cv, isConv := lim.(*ssa.Convert); isConv {
@@ -979,6 +964,47 @@ func c08r4(c *Ctx) {
 			if !fromSpec {
 				problems = append(problems, "the history limit never comes from GetRevisionHistoryLimit()")
 			}
+			return true
+		}
+		note := ""
+		if prefixLen != nil && p.c08AtMostExcess(prefixLen, limitOK, map[ssa.Value]bool{}) {
+			// every element of previous[:k] with k <= max(len(previous)-limit, 0) is beyond the limit
+			note = "loop over " + prm.Name() + "[:" + rvShort(p, prefixLen) + "], a prefix of at most len(" + prm.Name() + ") - limit elements"
+		} else {
+			// counter
+			var counter *ssa.Phi
+			for _, f := range p.FactsAt(site.Block()) {
+				rel, ok := rvRelOf(f)
+				if !ok {
+					continue
+				}
+				k, isC := constInt(rel.A)
+				ph, isPhi := rel.B.(*ssa.Phi)
+				if isC && isPhi && ph.Block() == loop.L.Head && ((k == 0 && rel.Strict) || (k == 1 && !rel.Strict)) {
+					counter = ph
+				}
+			}
+			if counter == nil {
+				if prefixLen != nil {
+					o.Fail("the deleted revisions are %s[:%s], whose length is not bounded by len(%s) - revisionHistoryLimit, and the delete is not guarded by a loop-carried counter being > 0 (revisions within the history limit could be deleted)", prm.Name(), rvShort(p, prefixLen), prm.Name())
+				} else {
+					o.Fail("the delete is not guarded by a loop-carried counter being > 0 (revisions within the history limit could be deleted)")
+				}
+				continue
+			}
+			for k, e := range counter.Edges {
+				pred := loop.L.Head.Preds[k]
+				if loop.L.Body[pred] {
+					if xx, cnt, ok := rvSubConst(e); !ok || xx != ssa.Value(counter) || cnt < 1 {
+						problems = append(problems, "the counter is not decremented on every completed iteration ("+rvShort(p, e)+"), so more than the excess could be deleted")
+					}
+					continue
+				}
+				if !limitOK(e) {
+					problems = append(problems, "the counter does not start at len(previous) - limit: "+rvShort(p, e))
+				}
+			}
+			note = "loop over " + prm.Name() + ", counter " + counter.Comment
 		}
 		// the list handed down is the sub-reconciler's previous list
 		if why := p.c08ParamIsPrevList(fn, prm, 4); why != "" {
@@ -989,7 +1015,7 @@ func c08r4(c *Ctx) {
 		if len(problems) > 0 {
 			o.Fail("%s", strings.Join(rvDedup(problems), "; "))
 		} else {
-			o.OK("loop over " + prm.Name() + ", counter " + counter.Comment)
+			o.OK(note)
 		}
 	}
 	// previous never contains current, at every invocation
@@ -1030,6 +1056,54 @@ func c08r4(c *Ctx) {
 			o.OK(fmt.Sprintf("%d feasible (current, previous) cases", len(cases)))
 		}
 	}
+}
+
+// c08AtMostExcess: v <= max(E, 0) on every path, where E is an expression accepted by isExcess
+// (len(previous) - limit): E itself, a constant <= 0, max(…) of such values, min(…) with at least
+// one such operand, a phi of such values.
+func (p *Program) c08AtMostExcess(v ssa.Value, isExcess func(ssa.Value) bool, seen map[ssa.Value]bool) bool {
+	v = stripConv(v)
+	if seen[v] {
+		return true
+	}
+	seen[v] = true
+	if n, isC := constInt(v); isC {
+		return n <= 0
+	}
+	switch x := v.(type) {
+	case *ssa.Phi:
+		for _, e := range x.Edges {
+			if !p.c08AtMostExcess(e, isExcess, seen) {
+				return false
+			}
+		}
+		return true
+	case *ssa.Call:
+		if bi, ok := x.Call.Value.(*ssa.Builtin); ok {
+			switch bi.Name() {
+			case "max":
+				for _, a := range x.Call.Args {
+					if !p.c08AtMostExcess(a, isExcess, seen) {
+						return false
+					}
+				}
+				return len(x.Call.Args) > 0
+			case "min":
+				for _, a := range x.Call.Args {
+					// a failed operand must not poison a later visit of the same value
+					sub := map[ssa.Value]bool{}
+					for k := range seen {
+						sub[k] = true
+					}
+					if p.c08AtMostExcess(a, isExcess, sub) {
+						return true
+					}
+				}
+				return false
+			}
+		}
+	}
+	return isExcess(v)
 }
 
 // c08ParamIsPrevList: parameter prm of fn is, through every static caller chain, the
